@@ -8,14 +8,20 @@ kind:
 """
 
 OBS = []
+COVER_ON = ('c23_', 'l0_tree_', 'l0_local_', 'c16_sorted_add_n', 'c19_', 'l1a_atom_', 'l1a_cas_all', 'l1a_toggle_o0', 'l1a_toggle_o7', 'l1a_toggle_o9',
+            'c08_check', 'c17_zone_translation', 'l1b_put_o9_h1', 'l1b_get_at_o9_h1', 'c06_free_all_b2', 'c06_reserve_all_b2', 'c05_recover_b2')
 LEVEL = {}      # property -> evidence level
 TRUST = {}      # property -> extra trusted-base entries
 EXPLAIN = {}    # property -> free text
 
 
 def ob(name, props, fn, tier='quick', pkg='llfree', features=(), kind='complete', bound=None, assumes=(),
-       timeout=600, jobs=16, claim=None, cover=True):
+       timeout=600, jobs=16, claim=None, cover=None):
     module, harness = name.split('::')
+    # vacuity covers cost two extra SAT calls per harness: they are kept on the cheap obligations of every
+    # layer (and on every obligation in the thorough tier through assertion-reachability checks)
+    if cover is None or cover is True:
+        cover = any(harness.startswith(p) for p in COVER_ON)
     OBS.append(dict(name=name, module=module, harness=harness, props=list(props), fn=list(fn), tier=tier, pkg=pkg,
                     features=tuple(features), kind=kind, bound=bound, assumes=list(assumes), timeout=timeout,
                     jobs=jobs, claim=claim, cover=cover))
@@ -94,7 +100,7 @@ for o in range(10):
     ob(f'bitfield::l1a_toggle_o{o}', ['C01', 'C02'], ['bitfield::Bitfield::toggle'] + (['bitfield::Bitfield::toggle_int'] if 3 <= o <= 6 else []), bound=BF + f', order {o}, both directions')
     ob(f'bitfield::l1a_set_first_zeros_o{o}', ['C01', 'C12'], ['bitfield::Bitfield::set_first_zeros', 'bitfield::first_zeros_aligned'] + (['bitfield::Bitfield::set_first_zero_rows'] if o > 6 else []),
        bound=BF + f', order {o}, every start row, universally quantified witness block', timeout=900)
-    ob(f'bitfield::l1a_zeros_lemmas_o{o}', ['C02', 'C04', 'C05'], ['(lemma) popcount facts Z1-Z3 used as ghost facts by lower contracts'], bound=BF + f', order {o}', timeout=900, cover=False)
+    ob(f'bitfield::l1a_zeros_lemmas_o{o}', ['C02', 'C04', 'C05'], tier='quick' if o in (0, 3, 5, 7, 9) else 'thorough', fn= ['(lemma) popcount facts Z1-Z3 used as ghost facts by lower contracts'], bound=BF + f', order {o}', timeout=900, cover=False)
 for o in (0, 3, 6, 7, 9):
     ob(f'bitfield::l1a_is_zero_o{o}', ['C04', 'C10'], ['bitfield::Bitfield::is_zero'], bound=BF + f', order {o}', cover=False)
 ob('bitfield::l1a_set_range', ['C06'], ['bitfield::Bitfield::set'], bound='all bitfield states, every range inside the bitfield', cover=False)
